@@ -872,7 +872,9 @@ class ODLEncoder(PVLEncoder):
         from UTC to be included, and otherwise recommends that times
         be suffixed with a 'Z' to clearly indicate that they are in UTC.
         """
-        if value.tzinfo is None:
+        # A time is naive when it has no offset, even if it has a tzinfo
+        # (one whose offset depends on the date has none for a bare time).
+        if value.utcoffset() is None:
             raise ValueError(
                 f"ODL cannot output local times, and this time does not "
                 f"have a timezone offset: {value}"
